@@ -11,7 +11,9 @@ if [ ! -x $V/bin/instrument ]; then
 fi
 SCR=$(mktemp -d /dev/shm/verif-build.XXXXXX) || exit 2
 trap 'rm -rf "$SCR"' EXIT
-$V/bin/instrument -repo $REPO -out $SCR -overlaysrc $V/overlay "$@" || { echo "build: instrumentation failed" >&2; exit 2; }
+PORC=$(ls -d $(go env GOMODCACHE)/github.com/anishathalye/porcupine@v1.3.0 2>/dev/null | head -1)
+[ -d "$PORC" ] || { echo "build: porcupine v1.3.0 not found in the module cache" >&2; exit 2; }
+$V/bin/instrument -repo $REPO -out $SCR -overlaysrc $V/overlay -porcupine "$PORC" "$@" || { echo "build: instrumentation failed" >&2; exit 2; }
 cp $REPO/go.mod $SCR/go.mod && cp $REPO/go.sum $SCR/go.sum || exit 2
 mkdir -p $(dirname $OUT) $V/evidence
 cp $SCR/instrument_stats.json $OUT.stats.json
